@@ -281,6 +281,7 @@ class Gen:
         self.loop_depth = 0
         self.f = None
         self.forward = allow_forward  # Func that may be called although generated later (mutual recursion)
+        self.nonil = 0
         self.risk = 2 + rng.below(4)  # budget of operations that panic on nil / wrong dynamic type
 
     # ---- scopes
@@ -371,7 +372,7 @@ class Gen:
                 if vs:
                     return r.choice(vs)
                 return self.leaf(t, bare)
-            if r.chance(1, 8):
+            if r.chance(1, 8) and not self.nonil:
                 self.feat("nil-const")
                 return self.nil_of(t, bare)
             if r.chance(1, 9):
@@ -399,6 +400,12 @@ class Gen:
                 k = r.below(16)
                 if k <= 2 or k == 6:
                     self.risk -= 1
+                    self.nonil += 1
+                    try:
+                        return {0: "*" + self.expr("pint", d + 1), 1: self.expr("pt", d + 1) + ".X",
+                                2: self.expr("sl", d + 1) + "[0]", 6: self.expr("parr", d + 1) + "[1]"}[k]
+                    finally:
+                        self.nonil -= 1
                 if k == 0:
                     self.feat("deref")
                     return "*" + self.expr("pint", d + 1)
@@ -437,7 +444,7 @@ class Gen:
             "any": "any(1)", "err": "error(&%s{})" % self.q("E"), "ii": "%s(&%s{})" % (self.q("I"), self.q("T")),
             "up": "unsafe.Pointer(new(int))", "parr": "new([2]int)", "parr0": "new([0]int)", "pany": "new(any)",
         }
-        if self.r.chance(1, 3):
+        if self.r.chance(1, 3) and not self.nonil:
             return self.nil_of(t, bare)
         return leaves[t]
 
@@ -450,9 +457,21 @@ class Gen:
             self.feat(feat)
             if feat in self.RISKY:
                 self.risk -= 1
+                self.nonil += 1
+                try:
+                    return fn()
+                finally:
+                    self.nonil -= 1
             return fn()
         g.risky = feat in self.RISKY
         return g
+
+    def holding(self, src, tgt, d):
+        """an expression of interface type src that (mostly) holds a value of type tgt"""
+        vs = self.vars_of(src)
+        if vs and self.r.chance(1, 2):
+            return self.r.choice(vs)
+        return "(%s(%s))" % (self.ty(src), self.expr(tgt, d + 1))
 
     def e_pint(self, d):
         e, F = self.expr, self.F
@@ -466,7 +485,7 @@ class Gen:
             F("load-pp", lambda: "*%s" % e("ppint", d + 1)),
             F("conv-up-ptr", lambda: "(*int)(%s)" % e("up", d + 1)),
             F("conv-uintptr", lambda: "(*int)(unsafe.Pointer(%s))" % e("uintptr", d + 1)),
-            F("typeassert", lambda: "%s.(*int)" % e("any", d + 1)),
+            F("typeassert", lambda: "%s.(*int)" % self.holding("any", "pint", d)),
             F("call-dyn", lambda: "%s()" % e("fn", d + 1)),
             F("invoke", lambda: "%s.Get()" % e("ii", d + 1)),
             F("static-method", lambda: "%s.Get()" % e("pt", d + 1)),
@@ -487,16 +506,16 @@ class Gen:
             F("complit-addr", lambda: "&%s{}" % self.q("T")),
             F("new", lambda: "new(%s)" % self.q("T")),
             F("complit-addr", lambda: "&%s{P: %s, I: %s}" % (self.q("T"), e("pint", d + 1), e("any", d + 1))),
-            F("typeassert", lambda: "%s.(*%s)" % (e("any", d + 1), self.q("T"))),
-            F("typeassert-ii", lambda: "%s.(*%s)" % (e("ii", d + 1), self.q("T"))),
+            F("typeassert", lambda: "%s.(*%s)" % (self.holding("any", "pt", d), self.q("T"))),
+            F("typeassert-ii", lambda: "%s.(*%s)" % (self.holding("ii", "pt", d), self.q("T"))),
         ]
 
     def e_pe(self, d):
         e, F = self.expr, self.F
         return [
             F("complit-addr", lambda: "&%s{}" % self.q("E")),
-            F("typeassert-err", lambda: "%s.(*%s)" % (e("err", d + 1), self.q("E"))),
-            F("typeassert", lambda: "%s.(*%s)" % (e("any", d + 1), self.q("E"))),
+            F("typeassert-err", lambda: "%s.(*%s)" % (self.holding("err", "pe", d), self.q("E"))),
+            F("typeassert", lambda: "%s.(*%s)" % (self.holding("any", "pe", d), self.q("E"))),
         ]
 
     def e_sl(self, d):
@@ -523,7 +542,7 @@ class Gen:
             F("field-load", lambda: "%s.S" % e("pt", d + 1)),
             F("unsafe-slice", lambda: "unsafe.Slice(%s, 0)" % e("pint", d + 1)),
             F("unsafe-slice", lambda: "unsafe.Slice(%s, 1)" % e("pint", d + 1)),
-            F("typeassert", lambda: "%s.([]int)" % e("any", d + 1)),
+            F("typeassert", lambda: "%s.([]int)" % self.holding("any", "sl", d)),
             F("global-load", lambda: self.q("GS")),
         ]
 
@@ -598,7 +617,7 @@ class Gen:
         return [
             F("makeiface-ptr", lambda: "error(%s)" % e("pe", d + 1)),
             F("makeiface-typednil", lambda: "error((*%s)(nil))" % self.q("E")),
-            F("typeassert-iface", lambda: "%s.(error)" % e("any", d + 1)),
+            F("typeassert-iface", lambda: "%s.(error)" % self.holding("any", "pe", d)),
             F("field-load", lambda: "%s.E" % e("pt", d + 1)),
             F("global-load", lambda: self.q("GE")),
         ]
@@ -608,8 +627,8 @@ class Gen:
         return [
             F("makeiface-ptr", lambda: "%s(%s)" % (self.q("I"), e("pt", d + 1))),
             F("makeiface-ptr", lambda: "%s(%s)" % (self.q("I"), e("pe", d + 1))),
-            F("typeassert-iface", lambda: "%s.(%s)" % (e("any", d + 1), self.q("I"))),
-            F("typeassert-iface", lambda: "%s.(%s)" % (e("err", d + 1), self.q("I"))),
+            F("typeassert-iface", lambda: "%s.(%s)" % (self.holding("any", "pt", d), self.q("I"))),
+            F("typeassert-iface", lambda: "%s.(%s)" % (self.holding("err", "pe", d), self.q("I"))),
             F("global-load", lambda: self.q("GI")),
         ]
 
@@ -704,6 +723,12 @@ class Gen:
             if self.risk <= 0:
                 return False
             self.risk -= 1
+            self.nonil += 1
+            try:
+                return self.use_stmt(out, ind)
+            finally:
+                self.nonil -= 1
+        if False:
             u = r.below(9)
             if u == 0:
                 self.feat("deref")
@@ -832,6 +857,42 @@ class Gen:
             self.feat("early-return" + ("-loop" if self.loop_depth else ""))
             out.append(ind + self.ret_stmt())
             return True
+        return False
+
+    def use_stmt(self, out, ind):
+        r = self.r
+        u = r.below(9)
+        if u == 0:
+            self.feat("deref")
+            out.append("%s_ = *%s" % (ind, self.expr("pint", 1)))
+        elif u == 1:
+            self.feat("store")
+            out.append("%s*%s = 1" % (ind, self.expr("pint", 1)))
+        elif u == 2:
+            self.feat("index-slice")
+            out.append("%s_ = %s[0]" % (ind, self.expr("sl", 1)))
+        elif u == 3:
+            self.feat("mapupdate")
+            out.append("%s%s[1] = %s" % (ind, self.expr("mp", 1), self.expr("pint", 1, bare=True)))
+        elif u == 4:
+            self.feat("fieldaddr-load")
+            out.append("%s_ = %s.X" % (ind, self.expr("pt", 1)))
+        elif u == 5:
+            self.feat("field-store")
+            out.append("%s%s.P = %s" % (ind, self.expr("pt", 1), self.expr("pint", 1, bare=True)))
+        elif u == 6:
+            self.feat("call-dyn")
+            out.append("%s%s()" % (ind, self.expr("fv", 1)))
+        elif u == 7:
+            self.feat("store-iface")
+            out.append("%s*%s = %s" % (ind, self.expr("pany", 1), self.expr("any", 1, bare=True)))
+        else:
+            self.feat("select-default")
+            ch = self.expr("ch", 1)
+            if r.chance(1, 2):
+                out.append("%sselect {\n%scase %s <- 1:\n%sdefault:\n%s}" % (ind, ind, ch, ind, ind))
+            else:
+                out.append("%sselect {\n%scase <-%s:\n%sdefault:\n%s}" % (ind, ind, ch, ind, ind))
         return False
 
     def typeswitch(self, depth, out, ind):
@@ -1123,3 +1184,167 @@ class Module:
             need.add(x)
             todo += list(self.by_q[x].callees)
         return [f for f in self.funcs if f.qname in need]
+
+
+# =========================================================================== running the real code
+NILNESS = {0: "NoNilness", 1: "NeverNil", 2: "AlwaysNil", 3: "MaybeNilGlobal", 4: "MaybeNil"}
+
+
+def run_module(ctx, mod, root, probe, staticcheck, tag):
+    """writes the module, runs the real analysis (probe + staticcheck) and the compiled program.
+    Returns dict with nilness facts, SA4023 verdicts, observations, IR dump lines."""
+    mod.write(root)
+    env = vlib.go_env()
+    # 1. real analysis through the real runner
+    outp = os.path.join(root, "probe.out")
+    if os.path.exists(outp):
+        os.unlink(outp)
+    cache = os.path.join(root, "sc-cache")
+    e = dict(env)
+    e.update({"C15_OUT": outp, "STATICCHECK_CACHE": cache})
+    rc, so, se = vlib.run([probe, "-checks", "VN1500,SA4023", "-f", "json", "./a", "./b"], cwd=root, env=e, timeout=1500)
+    if rc not in (0, 1) or not os.path.exists(outp):
+        raise vlib.HarnessError("c15probe failed (%s) rc=%d: %s %s" % (tag, rc, so[-1500:], se[-1500:]))
+    probe_sa = parse_sa(so, root)
+    facts = {}      # (viewer pkg, func qname, idx) -> (inner, outer)
+    dumps = []
+    for line in open(outp).read().splitlines():
+        if line.startswith("N "):
+            _, viewer, fpkg, key, idx, inner, outer = line.split(" ")
+            facts[(viewer.rsplit("/", 1)[-1], fpkg.rsplit("/", 1)[-1] + "." + key, int(idx))] = (int(inner), int(outer))
+        elif line.startswith("P "):
+            dumps.append(line)
+    # 2. SA4023 from the real staticcheck binary
+    e2 = dict(env)
+    e2["STATICCHECK_CACHE"] = os.path.join(root, "sc-cache2")
+    rc, so, se = vlib.run([staticcheck, "-checks", "SA4023", "-f", "json", "./a", "./b"], cwd=root, env=e2, timeout=1500)
+    if rc not in (0, 1):
+        raise vlib.HarnessError("staticcheck failed (%s) rc=%d: %s %s" % (tag, rc, so[-1500:], se[-1500:]))
+    sa = parse_sa(so, root)
+    if sa is None or probe_sa is None:
+        raise vlib.HarnessError("staticcheck/c15probe reported a non-SA4023 problem (%s): %s" % (tag, so[-1500:]))
+    # 3. the same source, compiled and executed
+    prog = os.path.join(root, "prog")
+    rc, so, se = vlib.run([vlib.GO, "build", "-o", prog, "./main"], cwd=root, env=env, timeout=1500)
+    if rc != 0:
+        raise vlib.HarnessError("generated module does not compile (%s) (generator bug):\n%s" % (tag, (so + se)[-3000:]))
+    skip = []
+    obs = None
+    for attempt in range(8):
+        e3 = dict(os.environ)
+        e3["C15_SKIP"] = ",".join(skip)
+        rc, so, se = vlib.run([prog], cwd=root, env=e3, timeout=600)
+        if rc == 0:
+            obs = so
+            break
+        # a fatal (unrecoverable) runtime error: skip the function that was running
+        last = [l for l in so.splitlines() if l.startswith("B ")]
+        if not last:
+            raise vlib.HarnessError("generated program crashed before the first call: " + se[-1500:])
+        skip.append(last[-1].split(" ")[1])
+    if obs is None:
+        raise vlib.HarnessError("generated program keeps crashing: " + se[-1500:])
+    runs = {}       # name -> {vec idx: [tokens] | None (panic)}
+    for line in obs.splitlines():
+        if not line.startswith("R "):
+            continue
+        p = line.split(" ")
+        runs.setdefault(p[1], {})[int(p[2])] = None if p[3] == "P" else p[3:]
+    return {"facts": facts, "sa": sa, "probe_sa": probe_sa, "runs": runs, "dumps": dumps, "fatal_skipped": skip}
+
+
+def parse_sa(out, root):
+    res = {}
+    for line in out.splitlines():
+        line = line.strip()
+        if not line:
+            continue
+        try:
+            j = json.loads(line)
+        except ValueError:
+            return None
+        if j.get("code") != "SA4023":
+            if j.get("code") == "VN1500":
+                continue
+            return None
+        fn = os.path.relpath(j["location"]["file"], os.path.realpath(root))
+        if fn.startswith(".."):
+            fn = os.path.relpath(j["location"]["file"], root)
+        res[(fn, j["location"]["line"])] = j["message"]
+    return res
+
+
+# =========================================================================== oracle
+def outer_nil(tok):
+    return tok == "N"
+
+
+def oracle(mod, res):
+    """the property itself on the real code's outputs. Returns (violations, stats)"""
+    viols = []
+    stats = {"results_classified": 0, "definite_results": 0, "definite_with_normal_return": 0, "calls": 0,
+             "normal_returns": 0, "sa4023_flagged": 0, "sa4023_flagged_executed": 0, "functions_never_returning": 0}
+    hist = {}
+    for f in mod.funcs:
+        runs = res["runs"].get(f.qname, {})
+        vecs = mod.vectors[f.qname]
+        normal = {i: r for i, r in runs.items() if r is not None}
+        stats["calls"] += len(runs)
+        stats["normal_returns"] += len(normal)
+        if not normal:
+            stats["functions_never_returning"] += 1
+        for idx, t in enumerate(f.results):
+            if not TYPES[t][1]:
+                continue
+            for viewer in ("a", "b"):
+                cls = res["facts"].get((viewer, f.qname, idx))
+                if cls is None:
+                    continue
+                inner, outer = cls
+                if viewer == f.pkg:
+                    stats["results_classified"] += 1
+                    hist["%s/%s" % (NILNESS[inner], NILNESS[outer])] = hist.get("%s/%s" % (NILNESS[inner], NILNESS[outer]), 0) + 1
+                    definite = outer in (1, 2) or (TYPES[t][2] and inner in (1, 2))
+                    if definite:
+                        stats["definite_results"] += 1
+                        if normal:
+                            stats["definite_with_normal_return"] += 1
+                for i, toks in sorted(normal.items()):
+                    tok = toks[idx]
+                    what = None
+                    if outer == 1 and tok == "N":
+                        what = "result classified Outer=NeverNil is nil"
+                    elif outer == 2 and tok != "N":
+                        what = "result classified Outer=AlwaysNil is not nil"
+                    elif TYPES[t][2] and inner == 1 and tok == "Vn":
+                        what = "interface result classified Inner=NeverNil holds a nil value"
+                    elif TYPES[t][2] and inner == 2 and tok == "Vv":
+                        what = "interface result classified Inner=AlwaysNil holds a non-nil value"
+                    if what:
+                        viols.append({"kind": "nilness", "func": f.qname, "result": idx, "type": gotype(t, "a"), "viewer_pkg": viewer,
+                                      "classification": {"Inner": NILNESS[inner], "Outer": NILNESS[outer]},
+                                      "observed": tok, "vector": i, "globals": dict(zip([g for g, _ in GLOBALS], vecs[i][0])),
+                                      "args": vecs[i][1], "what": what})
+                        break
+    # SA4023: a flagged comparison that succeeds
+    for (fn, line), msg in sorted(res["sa"].items()):
+        c = mod.cmps.get((fn, line))
+        if c is None:
+            continue  # a comparison inside a generated function body (MakeInterface case etc.): not probed by execution
+        cname, fq, idx, op = c
+        stats["sa4023_flagged"] += 1
+        runs = res["runs"].get("cmp:" + cname, {})
+        normal = {i: r for i, r in runs.items() if r is not None}
+        if normal:
+            stats["sa4023_flagged_executed"] += 1
+        never = "never true" in msg
+        for i, toks in sorted(normal.items()):
+            if (never and toks[0] == "T") or (not never and toks[0] == "F"):
+                vecs = mod.vectors[fq]
+                viols.append({"kind": "sa4023", "func": fq, "result": idx, "cmp": cname, "file": fn, "line": line,
+                              "message": msg, "observed_comparison_value": toks[0] == "T", "vector": i,
+                              "globals": dict(zip([g for g, _ in GLOBALS], vecs[i][0])), "args": vecs[i][1],
+                              "what": "SA4023 says '%s' but the comparison evaluated to %s" % (msg, toks[0] == "T")})
+                break
+    stats["classification_histogram"] = hist
+    return viols, stats
